@@ -6,7 +6,7 @@ for f in sorted(glob.glob("/verif/seeded/*/meta.json")):
     m = json.load(open(f))
     rows.append(m)
 head = "| seed | breaks | needs, in order to manifest | caught by | strengthening it prompted |\n|---|---|---|---|---|\n"
-body = "".join(f"| `{m['id']}` | {m['breaks_property']} | {m['needs_to_manifest']} | {m['caught_by']} | {m['strengthening'] or '-'} |\n" for m in rows)
+body = "".join(f"| `{m['id']}` | {m['breaks_property']} | {m['needs_to_manifest']} | {('RETIRED - ' + m['retired'] + ' Before: ' if m.get('retired') else '') + m['caught_by']} | {m['strengthening'] or '-'} |\n" for m in rows)
 txt = ("# Seeded changes\n\nEach directory holds `patch.diff` (against the repository commit named in `meta.json`), the demonstration script of its "
        "author (fails with the change, passes without) and `meta.json`. Every change keeps the 79 repository tests green. None of them is "
        "ever committed to /repo; to try one: `tools/try_mutant.sh seeded/<id>/patch.diff <check ids>` (applies, runs, reverts).\n\n" + head + body)
